@@ -53,9 +53,50 @@ def build_cli():
     run(["cargo", "build", "--release", "--offline", "-p", "ruzstd-cli"], REPO, env, "cli build")
     return os.path.join(TARGET, "cli", "release", "ruzstd-cli")
 
+def miri_c04(zv, env, max_cap, shards=16):
+    """C04's Miri tier: dump every ring-buffer transition up to max_cap with the native engine, replay all of them
+    under the interpreter in `shards` parallel processes; returns the path of a JSON summary."""
+    import json, concurrent.futures
+    work = os.path.join(VERIF, ".work", f"c04miri-{os.getpid()}")
+    os.makedirs(work, exist_ok=True)
+    jobs = os.path.join(work, "jobs.txt")
+    res = {"max_cap": max_cap, "jobs": 0, "steps": 0, "shards_ok": 0, "errors": []}
+    out_path = os.path.join(work, "miri.json")
+    try:
+        e2 = dict(env, C04_DUMP_JOBS=f"{jobs}:{max_cap}:0")
+        run([zv, "C04"], VERIF, e2, "dumping C04 jobs")
+        menv = dict(os.environ)
+        menv["CARGO_NET_OFFLINE"] = "true"
+        menv["RUSTFLAGS"] = "--cfg zstd_rs_verif"
+        menv["MIRIFLAGS"] = "-Zmiri-disable-isolation"
+        menv["CARGO_TARGET_DIR"] = os.path.join(TARGET, "c04miri")
+        crate = os.path.join(VERIF, "c04miri")
+        # build once (empty shard), then the shards in parallel
+        run(["cargo", "+nightly", "miri", "run", "--offline", "--", jobs, str(shards), str(shards)], crate, menv, "miri build")
+        def one(i):
+            r = subprocess.run(["cargo", "+nightly", "miri", "run", "--offline", "--", jobs, str(i), str(shards)], cwd=crate, env=menv, stdout=subprocess.PIPE, stderr=subprocess.STDOUT, text=True)
+            return i, r.returncode, r.stdout
+        with concurrent.futures.ThreadPoolExecutor(max_workers=shards) as ex:
+            for i, rc, out in ex.map(one, range(shards)):
+                ok = [l for l in out.splitlines() if l.startswith("MIRI-OK")]
+                if rc == 0 and ok:
+                    res["shards_ok"] += 1
+                    m = dict(kv.split("=") for kv in ok[0].split()[1:])
+                    res["jobs"] += int(m["jobs"]); res["steps"] += int(m["steps"])
+                else:
+                    tail = "\n".join(l for l in out.splitlines() if l.strip())[-3000:]
+                    res["errors"].append(tail)
+    except BuildError as e:
+        res["machinery_error"] = str(e)[-1500:]
+    json.dump(res, open(out_path, "w"))
+    return out_path
+
 def pre_run(pid, tier, env):
     """property-specific preparation (extra builds). Returns an exit code to stop, or None to continue."""
     try:
+        if pid == "C04" and (tier == "thorough" or os.environ.get("C04_MIRI")):
+            cap = int(os.environ.get("C04_MIRI_CAP", "17"))
+            env["C04_MIRI_RESULT"] = miri_c04(os.path.join(TARGET, "zv", "release", "zv"), env, cap)
         if pid == "C18":
             build_featdrv()
         if pid == "C19":
